@@ -122,6 +122,8 @@ def spellings(tier: str, rng: random.Random):
         mant = (digs[:pt] + '.' + digs[pt:]) if rng.random() < 0.7 and 0 < pt < nd else digs
         exp = 'p' + rng.choice(['', '+', '-']) + str(rng.choice([0, 1, 4, 52, 100, 1100])) if rng.random() < 0.7 else ''
         out.append(('hex', rng.choice(['', '-']) + '0x' + mant + exp))
+    # zeros, signed: a spelling with a zero significand denotes a zero of the sign written
+    out += [('hex', s) for s in ('-0x0p0', '0x0p0', '-0x0.000p-3', '-0x0p+5', '0x0.0p-1100', '-0x00p1', '-0x0', '-0x1p-1100', '0x0.8p1')]
     return out
 
 
